@@ -1,3 +1,4 @@
+-- properties: C04 C11
 /-
   C04 / C11 — the PAF container (stand-alone L1 model SfModel/Paf.lean over SfModel/SmallSession.lean; the frame count
   of the 24-bit block encoding is `Sf.Paf24.maxBlocks` of SfModel/Paf24.lean; helpers SfProofs/SmallSession.lean,
